@@ -328,7 +328,7 @@ func coreSingleOpPrograms() []Prog {
 		{op: "assert_eq", arity: 2}, {op: "assert_diff", arity: 2}, {op: "assert_bool", arity: 1},
 		{op: "assert_crumb", arity: 1}, {op: "assert_le", arity: 2},
 		{op: "tobinary", arity: 1, params: []int{1}, nres: 1}, {op: "tobinary", arity: 1, params: []int{5}, nres: 5},
-		{op: "tobinary", arity: 1, params: []int{6}, nres: 6}, {op: "tobinary", arity: 1, params: []int{7}, nres: 7, tier: "thorough"},
+		{op: "tobinary", arity: 1, params: []int{6}, nres: 6}, {op: "tobinary", arity: 1, params: []int{7}, nres: 7}, {op: "tobinary", arity: 1, params: []int{8}, nres: 8, tier: "thorough"},
 		{op: "tobinary_default", arity: 1, nres: 6},
 		{op: "toternary", arity: 1, params: []int{3}, nres: 3}, {op: "toternary", arity: 1, params: []int{4}, nres: 4},
 		{op: "plonk_eval", arity: 2, params: []int{3, 46, 2, 7}, nres: 1, scsOnly: true},
